@@ -52,6 +52,16 @@ CHECKS = {
         text="Theorems (Props/C11.v, no axioms): closure decides reachability; scc_spec = maximal mutually-reachable sets with >=2 members, pairwise disjoint, each once; same-cycle <=> mutual reachability; check_sccs accepts only the spec (all graphs, all outputs); Tarjan model = spec for every digraph on <=4 modules x 6 iteration orders (bounded); for all graphs the model's components have >=2 modules and are pairwise disjoint, count = #components, modules-in-cycles = sum of sizes, severity = documented table (partial). Every run: all digraphs <=4 modules, sampled (thorough: all 2^20) 5-module digraphs, random graphs to 60 modules and generated Python projects are run through the real detector/CLI and compared with the spec, the proved checker and the model.",
         note="Full Tarjan correctness for >4 modules and fuel sufficiency are not proved (bounded + partial + certificate instead). Severity spec includes the documented fan-in>10 => critical rule. Order of the cycle list is not compared. Hand-written model; correspondence is sampled beyond 5 modules.",
         design="5 C11"),
+    "C13": dict(
+        technique="Coq proof over a class-level syntax (84 positions) that the CBO model (walk over the parser.Node fields regenerated from cbo.go) equals the spec set on all positions, set-semantics laws (idempotence, permutation, additivity), risk table; refutations for the two open input classes; position x import-form matrix and metamorphic runs against the tagged driver and the CLI",
+        text="Props/C13.v (no axioms): C13_positions_all_visited, C13_exact_partial (all positions and import forms except module-qualified references and a generic as union operand, both refuted with witnesses), C13_count_distinct_not_self, C13_perm_invariant, C13_idempotent, C13_add_unrelated, C13_additive, C13_risk_table. Every run: 78 positions x 10 import forms, annotation shapes, multiplicities, threshold pairs, built-in table vs Python's own builtins, metamorphic variants, find-path probes tying the position table to ast_builder.go, CLI with show_zeros.",
+        note="open known findings: F29 (pkg.Class references never counted), F31 (generic as operand of |), F6 ([cbo] thresholds in analyze); F10, F13, F14, F15 repaired by fix: commits. rename-self proved only without self-mention (tested metamorphically on the implementation).",
+        design="5 C13"),
+    "C14": dict(
+        technique="Coq proof: union-find (as a labelling) partitions exactly by connectivity, the model's groups = connected components of its own method graph, per-method access collection exact for all 80 body positions; refutation for mixed instance/static duplicates; position x access-pattern matrix and random method graphs against the tagged driver and the CLI",
+        text="Props/C14.v (no axioms): C14_union_find (unbounded), C14_components, C14_spec_decides_connectivity, C14_positions_all_reached, C14_access_collection_exact_partial, C14_single_method, C14_risk_table; C14_mixed_duplicate_refuted (F30). Every run: 80 positions x 7 access patterns, 1..8 components x threshold pairs, 420 random classes (0-12 methods, static/class methods, duplicate names), CLI with default and custom thresholds.",
+        note="rank/path compression not modelled (only the partition is observable); class-level exactness of collectMethods vs effective instance methods is covered by correspondence, not proved; F30 open (name defined both as instance and static method stays a vertex); F13, F13b repaired.",
+        design="5 C14"),
     "C15": dict(
         technique="Coq proof over an exact-rational model of domain/analyze.go + calculateSummary; constants regenerated from Go source; differential correspondence (vm_compute) against the tagged Go driver",
         text="Theorems (Props/C15.v, no axioms): score and category ranges, score = max 0 (100 - sum of penalties) with caps 20/20/20/20/20/16/12, grade table, monotonicity in every measured quantity (simultaneously), skipping analyses never lowers the score. The model is tied to the code by regenerated constants and by running CalculateHealthScore / calculateSummary and the model on boundary-lattice and random summaries every run.",
